@@ -72,6 +72,7 @@ def plan(tier, seed):
     jobs = [{'space': 'trees', 'check': i, 'tier': tier, 'weight': 10}
             for i in range(n)]
     jobs.append({'space': 'literals-together', 'tier': tier, 'weight': 50})
+    jobs.append({'space': 'debuglog', 'tier': tier, 'weight': 50})
     if BOUNDS[tier].get('extra_leaves'):
         jobs += [{'space': 'trees-extra', 'check': i, 'tier': tier,
                   'weight': 3} for i in range(n)]
@@ -87,6 +88,8 @@ def run(job, seed):
     space = job['space']
     if space == 'literals-together':
         return run_literals(acc, enf)
+    if space == 'debuglog':
+        return run_debuglog(acc, enf)
     left, right, targets = checks()[job['check']]
     if space == 'trees':
         T = _trees.setdefault('std', Trees())
@@ -129,6 +132,68 @@ def run(job, seed):
     if n != (T.count_mappings_upto(cmax)):
         raise core.HarnessError('tree count %d != recurrence' % n)
     acc.sample(space, {'check': text, 'creds': tree})
+    return acc.result()
+
+
+SENSITIVE = ['password', 'auth_token', 'secret', 'token', 'adminPass',
+             'private_key', 'name']
+
+
+def run_debuglog(acc, enf):
+    """The library's debug logging dumps a MASKED copy of the credentials
+    (values under password-like keys become ***).  The checks must still see
+    the real values: credential attributes with such names at depth 1-3
+    (also inside lists), with logging off and on."""
+    import logging
+
+    class H(logging.Handler):
+        def emit(self, record):
+            record.getMessage()
+    lg = logging.getLogger('oslo_policy')
+    trees = []
+    for k in SENSITIVE:
+        for v in ('x', '***', 1, None):
+            trees += [{k: v}, {'a': {k: v}}, {'a': [{k: 'no'}, {k: v}]},
+                      {k: {k: v}}, {k: [v, 'no']}]
+    try:
+        for debug in (False, True):
+            if debug:
+                lg.handlers[:] = [H()]
+                lg.setLevel(logging.DEBUG)
+            for k in SENSITIVE:
+                for left in (k, 'a.' + k, k + '.' + k):
+                    for right, targets in (('x', [{}]), ('***', [{}]),
+                                           ('%(t)s', [{'t': 'x'}, {'t': 1},
+                                                      {'t': '***'},
+                                                      {'t': None}])):
+                        text = '%s:%s' % (left, right)
+                        world.set_rules(enf, {'p': text})
+                        for tree in trees:
+                            for target in targets:
+                                exp = rleaf.generic_allows(left, right,
+                                                           target, tree)
+                                acc.ev()
+                                got = world.decide(enf, 'p', dict(target),
+                                                   dict(tree))
+                                if got != ('ok', exp):
+                                    acc.violation(
+                                        'debuglog|%s|%s' % (
+                                            'on' if debug else 'off',
+                                            'allows' if got == ('ok', True)
+                                            else 'denies' if got[0] == 'ok'
+                                            else got[1]),
+                                        '%s against %r target %r with debug '
+                                        'logging %s: got %r, reference %r' %
+                                        (text, tree, target,
+                                         'on' if debug else 'off', got, exp),
+                                        {'check': text, 'creds': tree,
+                                         'target': target, 'debug': debug},
+                                        exp, got, 'debuglog')
+                                acc.outcome('allow' if exp else 'deny')
+                        acc.case('debuglog', debug)
+    finally:
+        core.quiet_logging()
+    acc.sample('debuglog', {'keys': SENSITIVE})
     return acc.result()
 
 
@@ -189,6 +254,11 @@ def _containers(v):
 
 def replay(doc):
     c = doc['case']
+    if c.get('debug'):
+        import logging
+        lg = logging.getLogger('oslo_policy')
+        lg.handlers[:] = [logging.NullHandler()]
+        lg.setLevel(logging.DEBUG)
     enf = world.bare_enforcer()
     world.set_rules(enf, {'p': c['check']})
     left, right = c['check'].split(':', 1)
